@@ -328,6 +328,8 @@ class Check:
         return 1 if new else 0
 
     def write_evidence(self, n_new: int, n_known: int) -> None:
+        if os.environ.get("VERIF_REPLAY"):
+            return  # a replay of one case is not a coverage run
         cov = dict(self.cov)
         cov["samples"] = cov["samples"][:6]
         if not cov["samples"]:
